@@ -320,8 +320,9 @@ def run(spec, ctx):
         combos = {"req": [(n, 5)], "rsp": [(5, n)], "both": [(n, n)]}[spec["which"]]
         wins = [(2, 2), (1, 1), (4, 3), (1, 3), (3, 1), (8, 8)] if spec["tier"] == "quick" else [(a, b) for a in (1, 2, 3, 4, 8) for b in (1, 2, 3, 4, 8)]
         for (rq, rp) in combos:
-            for (cw, sw) in wins:
-                cfg = base_cfg(S, req_len=rq, rsp_len=rp, c_win=cw, s_win=sw)
+            for (cw, sw, retries) in [w + (3,) for w in wins] + [w + (1,) for w in wins[:3]] + ([w + (2,) for w in wins[:2]] if spec["tier"] == "thorough" else []):
+                # (one retry is enough to repair one lost frame)
+                cfg = base_cfg(S, req_len=rq, rsp_len=rp, c_win=cw, s_win=sw, retries=retries)
                 base, nframes = baseline_for(cfg)
                 for i in range(nframes):
                     for act in fault_actions(cfg) + [("delay", 1.5), ("delay", 3.5)]:
